@@ -1,22 +1,26 @@
 use crate::infra::Prop;
 
 pub mod c07;
+pub mod c08;
 pub mod c09;
 pub mod c10;
+pub mod c11;
 pub mod c14;
 pub mod c16;
 pub mod c17;
 
 pub fn all() -> Vec<&'static str> {
-    vec!["C07", "C09", "C10", "C14", "C16", "C17"]
+    vec!["C07", "C08", "C09", "C10", "C11", "C14", "C16", "C17"]
 }
 
 pub fn get(id: &str) -> Box<dyn Prop> {
     crate::bind::init();
     match id {
         "C07" => Box::new(c07::C07),
+        "C08" => Box::new(c08::C08),
         "C09" => Box::new(c09::C09),
         "C10" => Box::new(c10::C10),
+        "C11" => Box::new(c11::C11),
         "C14" => Box::new(c14::C14),
         "C16" => Box::new(c16::C16),
         "C17" => Box::new(c17::C17),
